@@ -87,6 +87,29 @@ fn intersection_impl<F>(a1: Coord<F>, a2: Coord<F>, b1: Coord<F>, b2: Coord<F>) 
 where
     F: Float,
 {
+    // The position of the meeting point is a ratio of cross products of coordinate differences.
+    // Evaluated in single precision these are too coarse to tell nearly parallel segments from
+    // touching ones (segments that do not meet were split at an invented point), so the
+    // computation is always carried out in double precision and rounded back once at the end.
+    let widen = |p: Coord<F>| Coord::<f64> {
+        x: p.x.into(),
+        y: p.y.into(),
+    };
+    let narrow = |p: Coord<f64>| Coord {
+        x: F::from(p.x).unwrap(),
+        y: F::from(p.y).unwrap(),
+    };
+    match intersection_in::<f64>(widen(a1), widen(a2), widen(b1), widen(b2)) {
+        LineIntersection::None => LineIntersection::None,
+        LineIntersection::Point(p) => LineIntersection::Point(narrow(p)),
+        LineIntersection::Overlap(p1, p2) => LineIntersection::Overlap(narrow(p1), narrow(p2)),
+    }
+}
+
+fn intersection_in<F>(a1: Coord<F>, a2: Coord<F>, b1: Coord<F>, b2: Coord<F>) -> LineIntersection<F>
+where
+    F: Float,
+{
     // println!("{:?} {:?} {:?} {:?}", a1, a2, b1, b2);
     let va = Coord {
         x: a2.x - a1.x,
